@@ -97,6 +97,21 @@ example : (run ([.send [1,2,3], .pump (.accept 2)] ++ [.sendFast [4] .again, .pu
 example : (run ([.send [1], .pump (.accept 1)] ++ [.sendFast [7,8] .fatal])).dropped = 1 ∧
     (run ([.send [1], .pump (.accept 1)] ++ [.sendFast [7,8] .fatal])).queued = [1] := by decide
 
+/-- **ioworker_closed_final**: "after a fatal socket error nothing further is written to that socket and the connection
+is reported closed exactly once", over TIME: once a worker is closed (by a fatal send error, by end of stream / a receive
+error, or by its owner), then whatever operations follow — sends, `send_fast`, loop passes with any socket outcomes,
+further `close()` calls — it stays closed, not one more `socket.send` call is made, the accepted bytes stay as they
+were and no further close is reported. -/
+theorem ioworker_closed_final (a b : List Op) (hc : (run a).closed = true) :
+    (run (a ++ b)).closed = true ∧ (run (a ++ b)).offered = (run a).offered ∧
+    (run (a ++ b)).accepted = (run a).accepted ∧ (run (a ++ b)).closeEvents = 1 := by
+  have h := foldl_closed b (run a) hc (run_guard a)
+  have h1 : (run a).closeEvents = 1 := by rw [(run_inv a).once, hc]; rfl
+  simp only [run, List.foldl_append] at *
+  exact ⟨h.1, h.2.1, h.2.2.1, by rw [h.2.2.2, h1]⟩
+example : (run [.send [1,2], .pump .fatal]).closed = true ∧
+    (run ([.send [1,2], .pump .fatal] ++ [.send [3], .pump (.accept 9), .sendFast [4] (.accept 9), .close])).offered = 1 := by decide
+
 /-- the code as it stands: a `shutdown(send)` requested when nothing is pending is never carried out (no later write
     finds `_shutdown_send` with a buffer it has just drained); the theorem above is therefore about requests that wait -/
 example : (run [.send [1], .pump (.accept 1), .shutdown, .pump (.accept 1), .pump (.accept 1)]).shutLog = [] := by decide
